@@ -47,6 +47,13 @@ Atoms    == {<<V1>>, <<V3>>, <<N1>>, <<N4>>, <<C3>>}
 AtomsAll == Atoms \cup {<<V5>>, <<N2>>, <<N6>>, <<C4>>}
 Vars     == {<<V1>>, <<V3>>}
 Index    == {v \o <<L("[", 1)>> \o i \o <<L("]", 1)>> : v \in Vars, i \in {<<V1>>, <<N1>>, <<V1, L(" + ", 3), N1>>}}
+(* an index expression that is itself an expression: a[(i + 1) * n + j], a[f(i)], a[i % n] *)
+Index2   == {v \o <<L("[", 1)>> \o i \o <<L("]", 1)>> : v \in Vars,
+              i \in {<<L("(", 1), V1, L(" + ", 3), N1, L(")", 1), L(" * ", 3), V3>>,
+                      <<L("(", 1), V1, L(" + ", 3), N1, L(")", 1), L(" * ", 3), V3, L(" + ", 3), V1>>,
+                      <<L("(", 1), V1, L(" - ", 3), N1, L(")", 1), L(" & ", 3), N1>>,
+                      <<F4, L("(", 1), V1, L(")", 1)>>, <<V1, L(" % ", 3), V3>>, <<V1, L(" * ", 3), V3, L(" + ", 3), N1>>,
+                      <<L("-", 1), V1>>, <<L("*", 1), V3>>, <<V3, L("[", 1), V1, L("]", 1)>>}}
 Member   == {<<V3, L(".", 1), V1>>, <<V3, L("->", 2), V3>>, <<V3, L("->", 2), V3, L("->", 2), V1>>}
 Args(A)  == {<<>>} \cup A \cup {a \o <<L(", ", 2)>> \o b : a \in A, b \in {<<V1>>, <<N1>>, <<S5>>}}
                \cup {<<V1, L(", ", 2), V3, L(", ", 2), N1>>, <<V3, L(", ", 2), N1, L(", ", 2), V1, L(", ", 2), C3>>}
@@ -82,6 +89,9 @@ E2 == E1
       \cup Bin(E1, {L(" + ", 3), L(" && ", 4), L(" == ", 4)}, {<<V1>>, <<N1>>})
       \cup Bin({<<V1>>, <<N1>>}, {L(" - ", 3), L(" * ", 3), L(" || ", 4), L(" & ", 3), L(" < ", 3)}, E1)
       \cup Paren(Bin(Atoms, ArithOps \cup RelOps, Atoms))
+      \cup Bin(Paren(Bin({<<V1>>, <<V3>>, <<N1>>}, {L(" + ", 3), L(" - ", 3)}, {<<V1>>, <<N1>>})),
+                {L(" * ", 3), L(" & ", 3), L(" - ", 3), L(" + ", 3), L(" / ", 3), L(" % ", 3)}, {<<V1>>, <<V3>>, <<N1>>})
+      \cup Index2
 (* level 2: three operands, parenthesised sub-expressions on either side *)
 E3(dummy) == E2          \* parametrised so that TLC does not build the big table at start-up unless it is used
       \cup Bin(Bin(E1small, BinOps, {<<V1>>, <<N1>>}), {L(" + ", 3), L(" * ", 3), L(" && ", 4), L(" || ", 4), L(" == ", 4), L(" & ", 3)}, E1small)
